@@ -384,10 +384,19 @@ func KmacGrid(boundary []int, seed int64, dense bool) (res Result) {
 				if !dense && rng.Intn(2) != 0 && ol != 128 {
 					continue
 				}
-				h, err := hash.NewKMAC_128(key, cust, ol)
+				// the hasher gets private copies of the buffers, which the caller then wipes (callers clear key material after use):
+				// a hasher must not alias the slices it was constructed from
+				kbuf, cbuf := append([]byte(nil), key...), append([]byte(nil), cust...)
+				h, err := hash.NewKMAC_128(kbuf, cbuf, ol)
 				if err != nil {
 					add("KmacConstructor", fmt.Sprintf("key %d customizer %d out %d: %v", kl, cl, ol, err))
 					continue
+				}
+				for i := range kbuf {
+					kbuf[i] = 0xEE
+				}
+				for i := range cbuf {
+					cbuf[i] = 0xEE
 				}
 				n := rng.Intn(len(data) + 1)
 				want := RefKMAC128(key, cust, data[:n], ol)
